@@ -6,7 +6,7 @@
 From Coq Require Import Lia.
 From InvokeVerif Require Import Common.Tree Common.StrUtil Model.MergeModel Model.EnvModel
      Model.ConfigModel Spec.C03Spec Proofs.ListFacts Proofs.TreeFacts Proofs.C03_merge
-     Proofs.C03_levels Proofs.C03_order Proofs.C03_script.
+     Proofs.C03_levels Proofs.C03_order Proofs.C03_script Corr.C03Corr.
 
 Local Opaque try_suffixes mem.
 
@@ -605,4 +605,131 @@ Proof.
     rewrite !existsb_app; cbn [existsb isRt isPrj orb]; rewrite !orb_true_r;
     destruct (rt_corr fs (last_of fR (map undefer done) (i_rt i))) as [H _]; cbv zeta in H;
     rewrite H, Hb; rewrite !orb_true_r; reflexivity.
+Qed.
+
+(** * Executing a script: the state after the calls, or the first exception *)
+Fixpoint exec (fs : fsys) (c : cfg) (ops : list op) : result cfg :=
+  match ops with
+  | [] => Ok c
+  | o :: r => match step fs c o with
+              | (_, OErr e) => Err e
+              | (c', _) => exec fs c' r
+              end
+  end.
+
+Lemma exec_cons fs c o r :
+  exec fs c (o :: r) =
+  if is_err_out (snd (step fs c o))
+  then match snd (step fs c o) with OErr e => Err e | _ => Ok c end
+  else exec fs (fst (step fs c o)) r.
+Proof. simpl. destruct (step fs c o) as [c' out]. destruct out; reflexivity. Qed.
+
+Lemma exec_app fs : forall a c b,
+  exec fs c (a ++ b) = match exec fs c a with Ok c' => exec fs c' b | Err e => Err e end.
+Proof.
+  induction a as [|o a IH]; intros c b; [reflexivity|].
+  cbn [app exec]. destruct (step fs c o) as [c' out]. destruct out; try apply IH. reflexivity.
+Qed.
+
+(** The correspondence record's [model_out], via [exec]. *)
+Lemma run_exec fs : forall ops c,
+  (let '(cf, tr) := run fs c ops in
+   match first_err tr with Some e => Err e | None => Ok (snap_of cf) end) =
+  match exec fs c ops with Ok cf => Ok (snap_of cf) | Err e => Err e end.
+Proof.
+  induction ops as [|o r IH]; intros c; [reflexivity|].
+  cbn [run exec]. destruct (step fs c o) as [c' out]. specialize (IH c').
+  destruct out; cbn [abnormal]; try (destruct (run fs c' r) as [c'' tr]; cbn [first_err]; exact IH).
+  destruct e; try reflexivity; destruct (run fs c' r) as [c'' tr]; reflexivity.
+Qed.
+
+Lemma model_out_exec fs i ops x y :
+  model_out (mk fs i ops x y) =
+  match start fs i with
+  | Err e => Err e
+  | Ok c0 => match exec fs c0 ops with Ok cf => Ok (snap_of cf) | Err e => Err e end
+  end.
+Proof.
+  unfold model_out. cbn [c_fs c_init c_ops]. destruct (start fs i) as [c0|e]; [|reflexivity].
+  pose proof (run_exec fs ops c0) as H. destruct (run fs c0 ops) as [cf tr]. exact H.
+Qed.
+
+(** A failing execution fails at some call, after a clean prefix. *)
+Lemma exec_fails fs : forall ops c e, exec fs c ops = Err e ->
+  exists done o rest cd, ops = done ++ o :: rest /\ exec fs c done = Ok cd /\
+                         snd (step fs cd o) = OErr e /\
+                         List.length (run_states fs c ops) = List.length done.
+Proof.
+  induction ops as [|o r IH]; intros c e H; [discriminate|].
+  cbn [exec run_states] in *. destruct (step fs c o) as [c' out] eqn:Es.
+  destruct out; try (destruct (IH c' e H) as [done [o' [rest [cd [E1 [E2 [E3 E4]]]]]]];
+                     exists (o :: done), o', rest, cd; subst r; cbn [exec app]; rewrite Es;
+                     repeat split; try assumption; cbn [List.length]; f_equal; exact E4).
+  inversion H; subst e0. exists [], o, r, c. rewrite Es. repeat split.
+Qed.
+
+Lemma run_states_clean fs : forall ops c cf, exec fs c ops = Ok cf ->
+  List.length (run_states fs c ops) = List.length ops.
+Proof.
+  induction ops as [|o r IH]; intros c cf H; [reflexivity|].
+  cbn [exec run_states] in *. destruct (step fs c o) as [c' out].
+  destruct out; try discriminate; cbn [List.length]; f_equal; eapply IH; exact H.
+Qed.
+
+(** One non-failing script call. *)
+Lemma step_ok_script fs c o :
+  script_op o = true -> is_err_out (snd (step fs c o)) = false ->
+  io_bad fs c o = false /\ strip (fst (step fs c o)) = pure_step fs (strip c) o.
+Proof.
+  intros Ho Hne. split.
+  - destruct (io_bad fs c o) eqn:B; [|reflexivity].
+    rewrite (io_bad_step fs c o Ho B) in Hne. discriminate.
+  - rewrite (step_script_strip fs c o Ho). unfold strip. rewrite pure_step_cache. reflexivity.
+Qed.
+
+Lemma exec_script fs : forall ops c c', forallb script_op ops = true -> exec fs c ops = Ok c' ->
+  strip c' = apply_script fs (strip c) ops /\ no_bad fs (strip c) ops = true.
+Proof.
+  induction ops as [|o r IH]; intros c c' HF H.
+  - inversion H; subst. split; reflexivity.
+  - simpl in HF. apply andb_true_iff in HF as [Ho Hr]. rewrite exec_cons in H.
+    destruct (is_err_out (snd (step fs c o))) eqn:Ee.
+    + destruct (snd (step fs c o)); discriminate.
+    + destruct (step_ok_script fs c o Ho Ee) as [B S].
+      destruct (IH _ _ Hr H) as [I1 I2]. rewrite S in I1, I2.
+      split; [exact I1|]. cbn [no_bad]. unfold strip at 1. rewrite io_bad_cache, B. exact I2.
+Qed.
+
+(** * Construction *)
+Lemma step_deferred fs c o : is_deferred o = true -> io_bad fs c o = false ->
+  step fs c o = (pure_step fs c o, ONone).
+Proof.
+  intros Hd H. destruct o; try discriminate; unfold io_bad in H; cbn [undefer] in H;
+    unfold step, step_with, with_flag, pure_step, load_pure, guard, setter; cbn [undefer]; try reflexivity.
+  - unfold load_system. rewrite load_located_nomerge by exact H. reflexivity.
+  - unfold load_user. rewrite load_located_nomerge by exact H. reflexivity.
+  - unfold load_project. rewrite load_located_nomerge by exact H. reflexivity.
+  - rewrite load_runtime_nomerge by exact H. reflexivity.
+Qed.
+
+Lemma start_eq fs i :
+  start fs i = match exec fs (b0 i) (init_ops i) with
+               | Err e => Err e
+               | Ok c => match merge c with Ok d => Ok (set_cache c d) | Err e => Err e end
+               end.
+Proof.
+  unfold start, init, init_ops. fold (b0 i). destruct (i_lazy i); [reflexivity|].
+  cbn [exec]. unfold step at 1. unfold step_with, with_flag.
+  destruct (load_system fs (b0 i) false) as [[c1 o1] f1]. cbn [fst snd].
+  assert (E : forall X, match (if f1 then Merged (c_cache (b0 i)) else NoChange) with
+                        | LocalOnly l => (set_cache c1 l, o1) | _ => X end = X)
+    by (intros X; destruct f1; reflexivity).
+  rewrite E. clear E.
+  destruct o1; try reflexivity;
+    (unfold step at 1; unfold step_with, with_flag;
+     destruct (load_user fs c1 false) as [[c2 o2] f2]; cbn [fst snd];
+     assert (E : forall X, match (if f2 then Merged (c_cache c1) else NoChange) with
+                           | LocalOnly l => (set_cache c2 l, o2) | _ => X end = X)
+       by (intros X; destruct f2; reflexivity);
+     rewrite E; clear E; destruct o2; reflexivity).
 Qed.
